@@ -51,15 +51,16 @@ Definition has_byte (c : N) (s : bytes) : bool := existsb (N.eqb c) s.
    re-checked here - the grammar decides where a plain scalar ends *)
 Definition plain_scalar_ok (t : bytes) : bool :=
   negb (beq t []) && beq (trim t) t && negb (has_byte 10 t) && negb (has_byte 34 t) && negb (has_byte 39 t).
-(* a double-quoted scalar without escapes, a single-quoted scalar without '' : the text between the quotes *)
+(* a double-quoted scalar without escapes, a single-quoted scalar without a doubled quote: the text between the quotes
+   (scalars containing the other quote character are outside this reading) *)
 Definition dq_scalar_inner (t : bytes) : option bytes :=
   match yquoted_inner 34 t with
-  | Some inner => if has_byte 34 inner || has_byte 92 inner || has_byte 10 inner then None else Some inner
+  | Some inner => if has_byte 34 inner || has_byte 92 inner || has_byte 10 inner || has_byte 39 inner then None else Some inner
   | None => None
   end.
 Definition sq_scalar_inner (t : bytes) : option bytes :=
   match yquoted_inner 39 t with
-  | Some inner => if has_byte 39 inner || has_byte 10 inner then None else Some inner
+  | Some inner => if has_byte 39 inner || has_byte 10 inner || has_byte 34 inner then None else Some inner
   | None => None
   end.
 
@@ -109,27 +110,41 @@ Definition ypair_of (kids : list (node * yden)) : yden :=
   | _ => YDBad
   end.
 
+Definition all_ytok (kids : list (node * yden)) : bool := forallb (fun kd => match snd kd with YDTok => true | _ => false end) kids.
+(* the one child of a flow_node / block_node that carries the value: not itself such a wrapper, and when it is a scalar
+   it spans the wrapper exactly *)
+Definition is_wrapper (n : node) : bool := kind_is yk_flow_node n || kind_is yk_block_node n.
+Fixpoint wrapped (sb eb : N) (kids : list (node * yden)) : option yval :=
+  match kids with
+  | [] => None
+  | (c, YDVal v) :: t =>
+      if negb (is_wrapper c) && all_ytok t && match v with YStr _ => (n_sb c =? sb) && (n_eb c =? eb) | _ => true end
+      then Some v else None
+  | (_, YDTok) :: t => wrapped sb eb t
+  | _ => None
+  end.
 Definition denote_ystep (content kind : bytes) (sb eb : N) (missing : bool) (kids : list (node * yden)) : yden :=
   if missing then YDBad
-  else if existsb (beq kind) yaml_punct || beq kind yk_comment || beq kind yk_escape || existsb (beq kind) yaml_scalar_leaves then YDTok
+  else if existsb (beq kind) yaml_punct || beq kind yk_comment || beq kind yk_escape || existsb (beq kind) yaml_scalar_leaves then
+    match kids with [] => YDTok | _ => YDBad end
   else if beq kind yk_plain_scalar then
     match slice content sb eb with
-    | Some t => if plain_scalar_ok t then YDVal (YStr t) else YDBad
+    | Some t => if plain_scalar_ok t && all_ytok kids then YDVal (YStr t) else YDBad
     | None => YDBad
     end
   else if beq kind yk_dq_scalar then
     match slice content sb eb with
-    | Some t => match dq_scalar_inner t with Some s => YDVal (YStr s) | None => YDBad end
+    | Some t => match dq_scalar_inner t with Some s => if all_ytok kids then YDVal (YStr s) else YDBad | None => YDBad end
     | None => YDBad
     end
   else if beq kind yk_sq_scalar then
     match slice content sb eb with
-    | Some t => match sq_scalar_inner t with Some s => YDVal (YStr s) | None => YDBad end
+    | Some t => match sq_scalar_inner t with Some s => if all_ytok kids then YDVal (YStr s) else YDBad | None => YDBad end
     | None => YDBad
     end
   else if beq kind yk_flow_node || beq kind yk_block_node then
     (* exactly one child carries the value (anchors, tags and block scalars are outside this reading) *)
-    match yvals_of kids with Some [v] => YDVal v | _ => YDBad end
+    match wrapped sb eb kids with Some v => YDVal v | None => YDBad end
   else if beq kind yk_block_mapping || beq kind yk_flow_mapping then
     match ypairs_of kids with
     | Some l => if ykeys_nodup (map fst l) then YDVal (YMap (beq kind yk_flow_mapping) l) else YDBad
@@ -179,14 +194,14 @@ Fixpoint mentions (k : bytes) (v : yval) : bool :=
   | _ => false
   end.
 Definition mentions_catalog (v : yval) : bool := mentions w_catalog v || mentions w_catalogs v.
-(* well-formed as a pnpm workspace file, as far as this reading goes: the catalog sections are mappings of names to
-   scalars (catalogs: of group names to such mappings) *)
+(* well-formed as a pnpm workspace file, as far as this reading goes: the entries of a catalog mapping are scalars
+   (a mapping as the value of an entry is not a catalog) *)
 Definition is_catalog (v : yval) : bool :=
-  match v with YMap _ l => forallb (fun e => match snd e with YStr _ => true | _ => false end) l | _ => false end.
+  match v with YMap _ l => forallb (fun e => match snd e with YStr _ | YNull => true | _ => false end) l | _ => true end.
 Definition pnpm_shape_ok (v : yval) : bool :=
   match v with
   | YMap _ top => forallb (fun e => if beq (fst e) w_catalog then is_catalog (snd e)
-                                    else if beq (fst e) w_catalogs then match snd e with YMap _ groups => forallb (fun g => is_catalog (snd g)) groups | _ => false end
+                                    else if beq (fst e) w_catalogs then match snd e with YMap _ groups => forallb (fun g => is_catalog (snd g)) groups | _ => true end
                                     else true) top
   | _ => true
   end.
